@@ -13,7 +13,12 @@ R1 argument words are escaped exactly when CWL says so, and with the right funct
       `_get_value_repr` returns only `str(...)` (no lossy post-processing of the word);
    d. `baseCommand` reaches the command line only through `shlex.join` / `shlex.quote`;
    e. `CWLCommand.execute`: the command handed to `connector.run` is the tokenised command, or, under
-      `if self.is_shell_command`, the `/bin/sh -c` wrapper whose only run-time part is base64 text.
+      `if self.is_shell_command`, the `/bin/sh -c` wrapper whose only run-time part is base64 text; the encoder
+      agrees with the decoder named in the constant words of the wrapper: `base64 -d` accepts the standard alphabet
+      only, so the payload must come from `base64.b64encode` without `altchars` / `base64.standard_b64encode`
+      (`urlsafe_b64encode` writes 6-bit groups 62/63 as `-` `_`, which `base64 -d` rejects: truncated command line).
+   The value returned by `bind` is followed through temporaries (`tok = CommandToken(...); return tok`): the flow
+   facts are taken where the token is built.
 R2 environment, working directory and stream redirections reach the process through the shared renderer:
    a. `execute` passes `environment=<dict built from every self.environment item>`, `workdir=job.output_directory`
       and `stdin/stdout/stderr` evaluated from the homonymous CWL fields to `connector.run`; HOME / TMPDIR
@@ -23,7 +28,8 @@ R2 environment, working directory and stream redirections reach the process thro
       `environment`, `workdir` (and `stdin/stdout/stderr` when it forwards them) unchanged;
    c. P9 on `create_command`: the environment *value* and `workdir` are sources, the returned command line is
       the sink; `stdin/stdout/stderr` must arrive only as `shlex.quote`d redirection targets (flow-sensitive:
-      the raw parameter must not reach the return);
+      the raw parameter must not reach the rendered line -- the returned expression is followed through temporaries
+      and the reaching definitions are taken where the line is rendered, not at the `return`);
    d. `LocalConnector.run` hands the rendered line to `sh -c` through `shlex.quote`.
 R3 (added) escape suppression on composite bindings: `_get_command_token_processor_from_input` turns escaping
    off on the outer processor of an array/record binding (`shellQuote = False`, `is_shell_command = True`) and
@@ -48,6 +54,24 @@ R5 (added) word rendering: in every function that builds argv words (every `Comm
    is discarded does not count), `_get_executable_command` renders the words with `_get_value_repr`,
    `_get_value_for_command` applies `itemSeparator` to rendered items.
 
+R6 (added) instance isolation of the command objects (every tool owns its environment mapping / binding list):
+   a. in every `__init__` (and every method with a mutable default) of the `Command` and `CommandTokenProcessor`
+      hierarchies no `self.<attr>` store can evaluate to the default object of a parameter whose default is a mutable
+      container (`{}`, `[]`, `dict()`, comprehension ...): a default is evaluated once, so all instances built without
+      the argument would share it.  The stored value is followed flow-sensitively through locals, both arms of a
+      conditional expression, the operands of `or` (an *empty* default on the left of `or` is falsy and never stored)
+      and the elements of a container display;
+   b. for every attribute that a builder of the CWL translator fills in place after constructing the object
+      (`command.environment[k] = v`, `command.processors.append(...)`), the constructor binds `self.<attr>` only to the
+      caller's argument or to a container created in the constructor body -- not to a default object the builder did
+      not override, a module-level name or a class / shared attribute.
+
+Not decided: whether the *caller's* argument is itself shared between instances (`CWLCommand(environment=row[...])`
+in `_load`), in-place mutation of a default inside the constructor before it is replaced, and a parameter that reaches the
+store only on paths where a guard has already replaced the falsy default (`if not environment: environment = {}` with a
+mutable default is reported although it is safe; no such shape exists today).  Decoder/encoder agreement is decided for
+the decoder spelled in the wrapper's constant words only (`base64 -d` = standard alphabet, `basenc --base64url` = URL-safe).
+
 Left out: nothing of DESIGN C30.R1/R2; `CommandTemplateMap.get_command` (the second half of S2) is in C25's
 scope (queue-manager renderers are not among C30's anchors).
 """
@@ -64,7 +88,9 @@ from ._util_G import (
     NotFoldable,
     assign_nodes,
     atoms_in,
+    def_value,
     expand,
+    flow_values,
     fold,
     guards_of,
     is_call_to,
@@ -107,7 +133,10 @@ META = {
         "create_command, P9 quoting analysis of create_command (flow-sensitive for the redirection targets) and of "
         "LocalConnector.run, escape coverage of the leaf processors under composite bindings, symbolic evaluation of the "
         "sort key of every command-token sort ((position, name) order), and def-use taint of token values into text "
-        "renderings (only _get_value_repr may turn a token value into a word). Necessary "
+        "renderings (only _get_value_repr may turn a token value into a word), agreement of the base64 encoder of the shell "
+        "wrapper with the `base64 -d` decoder it names, and instance isolation of the command objects (no mutable default "
+        "argument stored as instance state; attributes the translator fills in place after construction are per-instance "
+        "containers). Necessary "
         "conditions only; the argv/env equality with the reference runner is not established."
     ),
     "undecided": "equality with cwltool's argv / environment / redirections (needs execution of both runners)",
@@ -153,11 +182,15 @@ def r1(ctx):
     g = f.cfg
     sites = [c for c in f.body_nodes() if isinstance(c, ast.Call) and ESC in resolved(p, f, c)]
     ctx.require(p.has(ESC), f"C30.R1: anchor {ESC} vanished")
-    rets = [
-        n
-        for n in f.body_nodes()
-        if isinstance(n, ast.Return) and n.value is not None and is_call_to(p, f, n.value, TOKEN)
-    ]
+    # (return statement, CommandToken(...) call it returns, CFG node evaluating the call): the returned expression is
+    # followed through temporaries (`tok = CommandToken(...); return tok`)
+    rets = []
+    for n in f.body_nodes():
+        if isinstance(n, ast.Return) and n.value is not None:
+            for rid in g.ids_of(n)[:1]:
+                for v, at in flow_values(f, n.value, rid):
+                    if is_call_to(p, f, v, TOKEN):
+                        rets.append((n, v.value if isinstance(v, ast.Await) else v, at))
     ctx.require(bool(rets), "C30.R1: CWLCommandTokenProcessor.bind no longer returns a CommandToken(...)")
     ctx.ob(
         "R1",
@@ -191,25 +224,25 @@ def r1(ctx):
         elif isinstance(stmt, ast.AnnAssign) and isinstance(stmt.target, ast.Name):
             tgt = stmt.target.id
         ctx.require(tgt is not None, f"C30.R1: escape statement `{unparse(stmt)[:80]}` is not an assignment to a local")
-        for r in rets:
-            kw = next((k.value for k in r.value.keywords if k.arg == "value"), None)
-            if kw is None and len(r.value.args) >= 3:
-                kw = r.value.args[2]
+        for r, tok, tok_at in rets:
+            kw = next((k.value for k in tok.keywords if k.arg == "value"), None)
+            if kw is None and len(tok.args) >= 3:
+                kw = tok.args[2]
             ctx.require(kw is not None, "C30.R1: returned CommandToken has no `value` argument")
             same = isinstance(kw, ast.Name) and kw.id == tgt
             rebound = []
             extra = []
             if same:
                 esc_ids = g.ids_of(stmt)
-                ret_ids = g.ids_of(r)
-                ctx.require(bool(esc_ids) and bool(ret_ids), "C30.R1: CFG nodes of escape/return not found")
+                ret_ids = [tok_at]  # where the token (and so its `value=`) is evaluated
+                ctx.require(bool(esc_ids), "C30.R1: CFG nodes of escape/return not found")
                 after = g.reach(esc_ids)
                 for d in assign_nodes(g, tgt):
                     if d in esc_ids:
                         continue
                     if d in after and any(x in g.reach([d]) for x in ret_ids):
                         rebound.append(g.nodes[d].text(80))
-                r_anc = set(id(a) for a in ancestors(r))
+                r_anc = set(id(a) for a in ancestors(enclosing_stmt(tok)))
                 extra = [unparse(t)[:80] for t, owner in irrelevant if id(owner) not in r_anc]
             ctx.ob(
                 "R1",
@@ -414,6 +447,29 @@ def _run_call(ctx, f):
     return calls[0]
 
 
+_STD_ENCODERS = ("base64.b64encode", "base64.standard_b64encode")
+
+
+def _encoder_alphabet(p, f, call) -> str:
+    """'standard' (RFC 4648 section 4: `+` `/`), 'urlsafe' (section 5: `-` `_`) or 'custom' for a base64 encoder call."""
+    if is_call_to(p, f, call, "base64.urlsafe_b64encode"):
+        return "urlsafe"
+    altchars = call.args[1] if len(call.args) >= 2 else next((k.value for k in call.keywords if k.arg == "altchars"), None)
+    if altchars is None or (isinstance(altchars, ast.Constant) and altchars.value in (None, b"+/")):
+        return "standard"
+    if isinstance(altchars, ast.Constant) and altchars.value == b"-_":
+        return "urlsafe"
+    return "custom"
+
+
+def _decoder_alphabet(consts: str) -> str:
+    """Alphabet the decoder named in the constant words of the wrapper accepts: coreutils / busybox / BSD `base64 -d`
+    decode the standard alphabet only; `basenc --base64url -d` the URL-safe one."""
+    if "base64url" in consts:
+        return "urlsafe"
+    return "standard"
+
+
 def _r1_shell_wrapper(ctx):
     p = ctx.prog
     f = p.func(f"{CMD}.execute")
@@ -440,15 +496,23 @@ def _r1_shell_wrapper(ctx):
             b64 = [
                 fr
                 for fr in dyn
-                if isinstance(fr.expr, ast.Call) and is_call_to(p, f, fr.expr, "base64.b64encode", "base64.urlsafe_b64encode")
+                if isinstance(fr.expr, ast.Call) and is_call_to(p, f, fr.expr, *_STD_ENCODERS, "base64.urlsafe_b64encode")
             ]
             consts = " ".join(str(ast.literal_eval(fr.text)) for fr in frs if fr.kind == "const")
             table, _ = _path_condition(ctx, f, d.stmt, "shell wrapper guard in execute")
             only_shell = all(v2 == k[0] for k, v2 in table.items())
+            enc = [(fr, _encoder_alphabet(p, f, fr.expr)) for fr in b64]
+            dec = _decoder_alphabet(consts)
             if len(b64) != len(dyn) or not dyn:
                 msg = f"shell wrapper splices {[fr.text[:60] for fr in dyn if fr not in b64]} into the /bin/sh -c line without base64 encoding"
             elif "base64 -d" not in consts or "/bin/sh" not in consts or "-c" not in consts.split():
                 msg = f"shell wrapper constants {consts!r} no longer decode the payload with `/bin/sh -c \"$(echo … | base64 -d)\"`"
+            elif any(a != dec for _, a in enc):
+                fr, a = next((fr, a) for fr, a in enc if a != dec)
+                msg = (f"the payload is encoded by `{unparse(fr.expr.func)}` ({a} base64 alphabet) but the rendered line decodes it with the {dec} "
+                       f"alphabet (`{consts}`): the decoder rejects the other alphabet's characters for 6-bit groups 62/63 ('-'/'_' vs '+'/'/'), "
+                       "so /bin/sh gets a truncated command line")
+                wrapped += 1  # the wrapper is there (reported once, as a wrong encoder)
             elif not only_shell:
                 msg = "the /bin/sh -c wrapper is not applied exactly when self.is_shell_command"
             else:
@@ -791,17 +855,19 @@ def _r2_create_command(ctx):
     for r in rets:
         sources = set(vals) | {"workdir"}
         check_quoting(ctx, "R2", f, r.value, r, trusted={"command", "class_name"} | keys, what="create_command", only_sources=sources)
-        # redirections: flow-sensitive -- the raw parameter must not reach the return
+        # redirections: flow-sensitive -- the raw parameter must not reach the rendered line.  The returned expression
+        # is followed through temporaries (`line = <rendering>; return line`): the names are read where the line is
+        # rendered, not at the return
         rid = g.ids_of(r)
         ctx.require(bool(rid), "C30.R2: return node of create_command not in CFG")
-        read = {n.id for n in ast.walk(r.value) if isinstance(n, ast.Name)}
-        for s in ("stdin", "stdout", "stderr"):
+        for (val, at), s in [(va, s) for va in flow_values(f, r.value, rid[0]) for s in ("stdin", "stdout", "stderr")]:
+            read = {n.id for n in ast.walk(val) if isinstance(n, ast.Name)}
             if s not in read:
                 ctx.ob("R2", f"create_command renders the {s} redirection", False, func=f, node=r, instance=f"create_command:{s}:present",
                        message=f"the {s} redirection is not part of the rendered command line")
                 continue
             bad = []
-            for d in reaching(f, s, rid[0]):
+            for d in reaching(f, s, at):
                 if d == "param":
                     bad.append(f"the raw `{s}` parameter")
                     continue
@@ -1345,8 +1411,228 @@ def r5(ctx):
            message="_get_value_for_command never joins the items with its item_separator: itemSeparator bindings yield one word per item")
 
 
-RULES = [("R1", r1), ("R2", r2), ("R3", r3), ("R4", r4), ("R5", r5)]
-FLOORS = {"R1": 10, "R2": 18, "R3": 5, "R4": 4, "R5": 8}
+# --------------------------------------------------------------------------- R6
+
+_MUTABLE_CTORS = ("dict", "list", "set", "bytearray", "defaultdict", "OrderedDict", "Counter", "deque", "ChainMap")
+_INPLACE = ("append", "extend", "insert", "update", "setdefault", "add", "pop", "popitem", "remove", "discard", "clear", "sort", "reverse",
+            "appendleft", "extendleft")
+
+
+def _param_defaults(f) -> dict:
+    a = f.node.args
+    pos = a.posonlyargs + a.args
+    out = {x.arg: d for x, d in zip(reversed(pos), reversed(a.defaults))}
+    out.update({k.arg: d for k, d in zip(a.kwonlyargs, a.kw_defaults) if d is not None})
+    return out
+
+
+def _mutable_display(e) -> bool:
+    """The expression evaluates to a new mutable container (dict / list / set display, comprehension, constructor)."""
+    if isinstance(e, (ast.Dict, ast.List, ast.Set, ast.ListComp, ast.DictComp, ast.SetComp)):
+        return True
+    return isinstance(e, ast.Call) and (dotted(e.func) or "").split(".")[-1] in _MUTABLE_CTORS
+
+
+def _empty_display(e) -> bool:
+    if isinstance(e, ast.Dict):
+        return not e.keys
+    if isinstance(e, (ast.List, ast.Set)):
+        return not e.elts
+    return isinstance(e, ast.Call) and not e.args and not e.keywords and _mutable_display(e)
+
+
+def _value_alts(f, expr, at: int, truthy: bool = False, depth: int = 6) -> list[tuple]:
+    """[(leaf expression | None, CFG node, truthy_only)]: what a stored value may be.  Locals are followed through their
+    reaching plain assignments (flow-sensitive, so `if x is None: x = {}` yields the parameter and `{}`); `a or b` yields
+    `a` only when it is truthy; `a if c else b` both arms (`x if x else b`: x only when truthy); None = opaque binding
+    (loop / with / unpacking target)."""
+    if isinstance(expr, ast.Await):
+        return _value_alts(f, expr.value, at, truthy, depth)
+    if isinstance(expr, ast.NamedExpr):
+        return _value_alts(f, expr.value, at, truthy, depth)
+    if isinstance(expr, ast.IfExp):
+        same = isinstance(expr.test, ast.Name) and isinstance(expr.body, ast.Name) and expr.test.id == expr.body.id
+        return _value_alts(f, expr.body, at, truthy or same, depth) + _value_alts(f, expr.orelse, at, truthy, depth)
+    if isinstance(expr, ast.BoolOp):
+        out = []
+        for i, v in enumerate(expr.values):
+            last = i == len(expr.values) - 1
+            out.extend(_value_alts(f, v, at, truthy or (isinstance(expr.op, ast.Or) and not last), depth))
+        return out
+    if isinstance(expr, ast.Name) and isinstance(expr.ctx, ast.Load) and depth > 0:
+        out = []
+        for d in reaching(f, expr.id, at):
+            if d == "param":
+                out.append((expr, at, truthy))
+                continue
+            v = def_value(f, expr.id, d)
+            if v is None:
+                out.append((None, d, truthy))
+            else:
+                out.extend(_value_alts(f, v, d, truthy, depth - 1))
+        return out
+    return [(expr, at, truthy)]
+
+
+def _self_stores(f):
+    """(attribute, value expression, statement) for every `self.<attr> = <value>` of a method."""
+    if not f.params or f.cls is None or "staticmethod" in [unparse(d) for d in f.decorators]:
+        return
+    me = f.params[0]
+    for n in f.body_nodes():
+        if isinstance(n, ast.Assign):
+            tgts, val = n.targets, n.value
+        elif isinstance(n, ast.AnnAssign) and n.value is not None:
+            tgts, val = [n.target], n.value
+        else:
+            continue
+        for t in tgts:
+            if isinstance(t, ast.Attribute) and isinstance(t.value, ast.Name) and t.value.id == me:
+                yield t.attr, val, n
+
+
+def _shared_default(f, leaf, truthy_only: bool):
+    """(parameter, default expression) when `leaf` is a parameter of `f` whose default object is a mutable container
+    that can be the stored value (an *empty* default on the left of `or` is falsy and is never the one stored)."""
+    if not (isinstance(leaf, ast.Name) and leaf.id in f.params):
+        return None
+    d = _param_defaults(f).get(leaf.id)
+    if d is None or not _mutable_display(d) or (truthy_only and _empty_display(d)):
+        return None
+    return leaf.id, d
+
+
+def _held(e):
+    """`e` and, for container displays, the elements they hold (an alias kept inside a fresh list is still an alias)."""
+    yield e
+    if isinstance(e, (ast.List, ast.Tuple, ast.Set)):
+        for x in e.elts:
+            yield from _held(x.value if isinstance(x, ast.Starred) else x)
+    elif isinstance(e, ast.Dict):
+        for x in e.values:
+            yield from _held(x)
+
+
+def _isolation_scope(p) -> list[str]:
+    out = []
+    for b in (f"{TOKEN.rsplit('.', 1)[0]}.Command", TPROC):
+        for q in [b, *p.subclasses(b)]:
+            if q not in out:
+                out.append(q)
+    return out
+
+
+def r6(ctx):
+    p = ctx.prog
+    scope = _isolation_scope(p)
+    ctx.require(CMD in scope, f"C30.R6: {CMD} is no longer a Command subclass")
+    # a. no default object of a parameter ends up in instance state
+    for q in scope:
+        c = p.cls(q)
+        for name, f in sorted(c.methods.items()):
+            defaults = _param_defaults(f)
+            if name != "__init__" and not any(_mutable_display(d) for d in defaults.values()):
+                continue
+            g = f.cfg
+            bad = []
+            first = None
+            n_stores = 0
+            for attr, val, stmt in _self_stores(f):
+                ids = g.ids_of(stmt)
+                if not ids:
+                    continue
+                n_stores += 1
+                for leaf0, _, truthy_only in _value_alts(f, val, ids[0]):
+                    for leaf in (_held(leaf0) if leaf0 is not None else []):
+                        hit = _shared_default(f, leaf, truthy_only)
+                        if hit:
+                            first = first or stmt
+                            bad.append(f"self.{attr} = `{unparse(val)[:60]}` can be the default object `{unparse(hit[1])}` of parameter `{hit[0]}`")
+            short = ".".join(f.qualname.split(".")[-2:])
+            ctx.ob("R6", f"{short}: no mutable default argument becomes instance state", not bad, func=f, node=first or f.node,
+                   instance=f"isolation:default:{short}",
+                   message=f"{f.qualname}: " + "; ".join(bad) + " -- a default is evaluated once, so every instance built without that argument shares one "
+                   "object (CWLCommand: the translator fills command.environment[...] after construction, so EnvVarRequirement variables leak from one tool to the others)",
+                   witness=bad)
+    # b. what a builder fills in place after construction is a per-instance container
+    builders = [f for f in p.all_funcs() if f.module.name == TRANS]
+    checked = set()
+    for b in builders:
+        ctor_of = {}
+        for n in b.body_nodes():
+            if isinstance(n, (ast.Assign, ast.AnnAssign)) and n.value is not None and isinstance(n.value, ast.Call):
+                t = n.targets[0] if isinstance(n, ast.Assign) and len(n.targets) == 1 else getattr(n, "target", None)
+                qs = [q for q in resolved(p, b, n.value) if q in scope]
+                if isinstance(t, ast.Name) and len(qs) == 1:
+                    ctor_of.setdefault(t.id, []).append((qs[0], n.value))
+        if not ctor_of:
+            continue
+        for n in b.body_nodes():
+            tgt = None
+            if isinstance(n, ast.Subscript) and isinstance(n.ctx, (ast.Store, ast.Del)):
+                tgt = n.value
+            elif isinstance(n, ast.AugAssign):
+                tgt = n.target
+            elif isinstance(n, ast.Call) and isinstance(n.func, ast.Attribute) and n.func.attr in _INPLACE:
+                tgt = n.func.value
+            if not (isinstance(tgt, ast.Attribute) and isinstance(tgt.value, ast.Name) and tgt.value.id in ctor_of):
+                continue
+            for cq, call in ctor_of[tgt.value.id]:
+                if (b.qualname, cq, tgt.attr) in checked:
+                    continue
+                checked.add((b.qualname, cq, tgt.attr))
+                _check_fresh(ctx, b, enclosing_stmt(n), cq, call, tgt.attr)
+    if not checked:
+        ctx.observe("C30.R6: no builder of the CWL translator fills a command / processor attribute in place after construction")
+
+
+def _check_fresh(ctx, b, site, cq: str, call, attr: str):
+    """The constructor of `cq` binds `self.<attr>` to a container no other instance holds."""
+    p = ctx.prog
+    own = p.resolve_method(cq, "__init__")
+    init = store = None
+    for m in p.mro(cq):
+        c = p.classes.get(m)
+        f = c.methods.get("__init__") if c is not None else None
+        if f is not None:
+            st = [(val, stmt) for a, val, stmt in _self_stores(f) if a == attr]
+            if st:
+                init, store = f, st
+                break
+    short = cq.split(".")[-1]
+    if init is None:
+        ctx.observe(f"C30.R6: no constructor of {cq} stores self.{attr} (filled in place by {b.qualname})")
+        return
+    passed = {k.arg for k in call.keywords if k.arg} | set([x for x in init.params if x not in ("self",)][: len(call.args)])
+    star = any(k.arg is None for k in call.keywords) or any(isinstance(a, ast.Starred) for a in call.args)
+    bad = []
+    g = init.cfg
+    for val, stmt in store:
+        ids = g.ids_of(stmt)
+        if not ids:
+            continue
+        for leaf, _, truthy_only in _value_alts(init, val, ids[0]):
+            if leaf is None:
+                continue
+            if isinstance(leaf, ast.Name) and leaf.id in init.params:
+                d = _param_defaults(init).get(leaf.id)
+                explicit = init is own and (leaf.id in passed or star)
+                if d is not None and not explicit and _mutable_display(d) and not (truthy_only and _empty_display(d)):
+                    bad.append(f"the default object `{unparse(d)}` of parameter `{leaf.id}` (not passed by the builder)")
+            elif isinstance(leaf, ast.Name):
+                bad.append(f"the module-level object `{leaf.id}`")
+            elif isinstance(leaf, ast.Attribute):
+                bad.append(f"the shared object `{unparse(leaf)}`")
+    ctx.ob("R6", f"{short}.{attr}, filled in place by {b.name}, is a per-instance container", not bad, func=init, node=store[0][1],
+           instance=f"isolation:fresh:{short}.{attr}",
+           message=f"{b.qualname} fills `{unparse(site)[:70]}` in place after constructing the {short}, but {init.qualname} can bind self.{attr} to "
+           + "; ".join(bad) + f": every {short} built this way holds the same container, so what the builder stores for one tool "
+           "(EnvVarRequirement entries, bindings) reaches the command line / environment of the others",
+           witness=bad)
+
+
+RULES = [("R1", r1), ("R2", r2), ("R3", r3), ("R4", r4), ("R5", r5), ("R6", r6)]
+FLOORS = {"R1": 10, "R2": 18, "R3": 5, "R4": 4, "R5": 8, "R6": 6}
 
 _ENV_COMP_TAIL = "for k, v in self.environment.items()}"
 _ENV_COMP = ("{k: str(utils.eval_expression(expression=v, context=context, full_js=self.full_js, expression_lib=self.expression_lib)) "
@@ -1430,8 +1716,48 @@ _GLUED = "[self.prefix + _get_value_repr(value)]"
 _FN_BY_PREFIX = "def _add_prefix(prefix, separate, value):\n" + _prefix_helper("", "prefix", "separate", "[prefix + _get_value_repr(value)]", "    ")
 _FN_BY_PROC = "def _add_prefix(proc, value):\n" + _prefix_helper("", "proc.prefix", "proc.separate", "[proc.prefix + _get_value_repr(value)]", "    ")
 
+_TOKEN_RET = "return CommandToken(name=self.name, position=position, value=value)"
+_CC_LINE = ("''.join('{workdir}{environment}{command}{stdin}{stdout}{stderr}').format(workdir=f'cd {shlex.quote(workdir)} && ' if workdir is not None else '', "
+            "environment=''.join([f'export {key}={shlex.quote(str(value))} && ' for key, value in environment.items()]) if environment is not None else '', "
+            "command=' '.join(command), stdin=stdin, stdout=stdout, stderr=stderr)")
+_CC_TAIL = ("else:\n        stdout = ''\n    if stderr == asyncio.subprocess.PIPE:\n"
+            "        raise WorkflowExecutionException(f'The `{class_name}` does not support `stderr` pipe redirection.')\n    ")
+_B64 = "base64.b64encode(' '.join(cmd).encode('utf-8'))"
+_ENV_PARAM = "environment: MutableMapping[str, str] | None=None"
+_ENV_STORE = "self.environment: MutableMapping[str, str] = environment or {}"
+# CWLCommand.__init__ from the `environment` parameter to the store of self.environment (seeded change C30b-1 edits both ends)
+_ENV_CTOR = (_ENV_PARAM + ", expression_lib: MutableSequence[str] | None=None, failure_codes: Sequence[int] | None=None, full_js: bool=False, "
+             "initial_work_dir: str | MutableSequence[Any] | None=None, inplace_update: bool=False, is_shell_command: bool=False, "
+             "success_codes: Sequence[int] | None=None, step_stderr: str | None=None, step_stdin: str | None=None, step_stdout: str | None=None, "
+             "time_limit: int | str | None=None):\n    super().__init__(step=step, processors=processors)\n"
+             "    self.absolute_initial_workdir_allowed: bool = absolute_initial_workdir_allowed\n"
+             "    self.base_command: MutableSequence[str] = base_command or []\n    " + _ENV_STORE)
+
 VARIANTS = [
     # ---- breaking
+    # R1e encoder / decoder agreement (seeded change C30b-2 and siblings)
+    V("shell wrapper encoded with the URL-safe alphabet, decoded by `base64 -d` (seed b-2)", FILE, f"{CMD}.execute", _B64, "base64.urlsafe_b64encode(' '.join(cmd).encode())", "R1"),
+    V("shell wrapper encoded with altchars=b'-_'", FILE, f"{CMD}.execute", _B64, "base64.b64encode(' '.join(cmd).encode('utf-8'), altchars=b'-_')", "R1"),
+    V("shell wrapper: URL-safe payload hoisted into a local", FILE, f"{CMD}.execute", "if self.is_shell_command:\n        cmd = ['/bin/sh', '-c', '\"$(echo {command} | base64 -d)\"'.format(command=" + _B64 + ".decode('utf-8'))]",
+      "if self.is_shell_command:\n        payload = base64.urlsafe_b64encode(' '.join(cmd).encode('utf-8')).decode('utf-8')\n"
+      "        cmd = ['/bin/sh', '-c', '\"$(echo {command} | base64 -d)\"'.format(command=payload)]", "R1"),
+    # R6 instance isolation (seeded change C30b-1 and siblings)
+    V("ctor: environment defaults to a shared `{}` stored as is (seed b-1)", FILE, f"{CMD}.__init__", _ENV_CTOR,
+      _ENV_CTOR.replace(_ENV_PARAM, "environment: MutableMapping[str, str]={}").replace(_ENV_STORE, "self.environment: MutableMapping[str, str] = environment"), "R6", control=True),
+    V("ctor: non-empty mutable default survives `or`", FILE, f"{CMD}.__init__", _ENV_PARAM, "environment: MutableMapping[str, str]={'LANG': 'C'}", "R6"),
+    V("ctor: mutable default stored through a temporary", FILE, f"{CMD}.__init__", _ENV_CTOR,
+      _ENV_CTOR.replace(_ENV_PARAM, "environment: MutableMapping[str, str]=dict()").replace(_ENV_STORE, "env = environment\n    self.environment: MutableMapping[str, str] = env"), "R6"),
+    V("ctor: mutable default kept when not None", FILE, f"{CMD}.__init__", _ENV_CTOR,
+      _ENV_CTOR.replace(_ENV_PARAM, "environment: MutableMapping[str, str]={}").replace(_ENV_STORE, "self.environment: MutableMapping[str, str] = environment if environment is not None else {}"), "R6"),
+    V("ctor: environment falls back to a module-level dict", FILE, f"{CMD}.__init__", _ENV_STORE, "self.environment: MutableMapping[str, str] = environment or _NO_ENV", "R6",
+      append="_NO_ENV: dict = {}\n"),
+    V("ctor: environment falls back to a class-level dict", FILE, f"{CMD}.__init__", _ENV_STORE, "self.environment: MutableMapping[str, str] = environment or CWLCommand.__dict__", "R6"),
+    V("ctor: base_command keeps a mutable default", FILE, f"{CMD}.__init__", "base_command: MutableSequence[str] | None=None", "base_command: MutableSequence[str]=['true']", "R6"),
+    # the generalised return recognisers still see through the temporary
+    V("create_command: line built in a temporary without the stderr redirection", UFILE, CREATE, "return " + _CC_LINE,
+      "_sf_ret = " + _CC_LINE.replace("stderr=stderr)", "stderr='')") + "\n    return _sf_ret", "R2"),
+    V("create_command: line rendered into a temporary before stdout is formatted (default branch)", UFILE, CREATE, _CC_TAIL + "return " + _CC_LINE,
+      "else:\n        pass\n    _sf_ret = " + _CC_LINE + "\n    stdout = ''\n" + _CC_TAIL.split("\n", 2)[2] + "return _sf_ret", "R2"),
     V("escape guard: and instead of or", FILE, f"{PROC}.bind", "if not self.is_shell_command or self.shell_quote:", "if not self.is_shell_command and self.shell_quote:", "R1", control=True),
     V("escape guard: shell_quote only", FILE, f"{PROC}.bind", "if not self.is_shell_command or self.shell_quote:", "if self.shell_quote:", "R1"),
     V("escape guard: negation dropped", FILE, f"{PROC}.bind", "if not self.is_shell_command or self.shell_quote:", "if self.is_shell_command or self.shell_quote:", "R1"),
@@ -1516,6 +1842,21 @@ VARIANTS = [
     V("prefix helper function glues another processor attribute", FILE, f"{PROC}.bind", _PREFIX_CHAIN, "value = _add_prefix(self, value)", "R5",
       append=_FN_BY_PROC.replace("[proc.prefix + _get_value_repr(value)]", "[proc.name + _get_value_repr(value)]")),
     # ---- benign
+    V("benign: bind returns the token through a temporary (tempret)", FILE, f"{PROC}.bind", _TOKEN_RET,
+      "_sf_ret = CommandToken(name=self.name, position=position, value=value)\n            return _sf_ret", None),
+    V("benign: bind returns the token through two temporaries", FILE, f"{PROC}.bind", _TOKEN_RET,
+      "tok = CommandToken(name=self.name, position=position, value=value)\n            result = tok\n            return result", None),
+    V("benign: create_command returns the line through a temporary (tempret)", UFILE, CREATE, "return " + _CC_LINE, "_sf_ret = " + _CC_LINE + "\n    return _sf_ret", None),
+    V("benign: create_command: parameter names rebound after the line is rendered", UFILE, CREATE, "return " + _CC_LINE,
+      "_sf_ret = " + _CC_LINE + "\n    stdin = stdout = stderr = None\n    return _sf_ret", None),
+    V("benign: shell wrapper encoded with base64.standard_b64encode", FILE, f"{CMD}.execute", _B64, "base64.standard_b64encode(' '.join(cmd).encode('utf-8'))", None),
+    V("benign: shell wrapper payload hoisted into a local", FILE, f"{CMD}.execute", "if self.is_shell_command:\n        cmd = ['/bin/sh', '-c', '\"$(echo {command} | base64 -d)\"'.format(command=" + _B64 + ".decode('utf-8'))]",
+      "if self.is_shell_command:\n        payload = " + _B64 + ".decode('utf-8')\n        cmd = ['/bin/sh', '-c', '\"$(echo {command} | base64 -d)\"'.format(command=payload)]", None),
+    V("benign: ctor normalises environment with a guard clause", FILE, f"{CMD}.__init__", _ENV_STORE,
+      "if environment is None:\n        environment = {}\n    self.environment: MutableMapping[str, str] = environment", None),
+    V("benign: ctor copies the environment", FILE, f"{CMD}.__init__", _ENV_STORE, "self.environment: MutableMapping[str, str] = dict(environment or {})", None),
+    V("benign: ctor conditional expression", FILE, f"{CMD}.__init__", _ENV_STORE, "self.environment: MutableMapping[str, str] = {} if environment is None else environment", None),
+    V("benign: empty mutable default replaced by `or` (never stored)", FILE, f"{CMD}.__init__", _ENV_PARAM, "environment: MutableMapping[str, str]={}", None),
     V("benign: env defaults merged under the EnvVarRequirement entries", FILE, f"{CMD}.execute",
       "parsed_env = " + _ENV_COMP + "\n" + _ENV_DEFAULTS, "parsed_env = {'HOME': job.output_directory, 'TMPDIR': job.tmp_directory} | " + _ENV_COMP, None),
     V("benign: sort key as tuples", FILE, MERGE, _KEY, "key=lambda t: (t.position, t.name) if t.name is not None else (t.position,)", None),
